@@ -36,48 +36,83 @@ def run(ctx, chk):
     R = chk.rule("R-MAIN", "main: the input file named by the required positional argument is read completely, then a single match on "
                  "rspirv::dr::load_bytes(&buffer): Ok(m) => println!(\"{}\", m.disassemble()), Err(e) => println!(\"{}\", e); nothing "
                  "else is printed, the process is never exited explicitly, and main returns ()")
-    st = f["body"][1]
     chk.check(R, f["sig"]["ret"] == "()", "returns-unit", "main returns %s (a returned Err would change the exit status and output)" % f["sig"]["ret"], W)
-    prints = [n for n in walk(f["body"]) if n[0] == "call" and re.search(r"io::_e?print$", path_of(n[1]) or "")]
-    exits = [show(n)[:60] for n in walk(f["body"]) if n[0] == "call" and re.search(r"process::(exit|abort)$", path_of(n[1]) or "")]
-    chk.check(R, not exits, "no-exit", "explicit process exit: %s" % exits, W)
-    last = st[-1][1] if st and st[-1][0] == "expr" else None
-    last = unblock(last) if last is not None else None
-    ok = last is not None and last[0] == "match" and len(last[2]) == 2
-    why = "the last statement of main is not a two-armed match"
-    if ok:
-        scr = show(last[1])
-        m = re.match(r"^rspirv::dr::load_bytes\(&(\w+)\)$", scr)
-        ok = m is not None
-        why = "scrutinee is %s" % scr
-        if ok:
-            buf = m.group(1)
-            arms = {}
-            for pat, guard, body in last[2]:
-                if pat[0] == "p_ts" and pat[1] in ("Ok", "Err") and len(pat[2]) == 1 and pat[2][0][0] == "p_ident" and guard is None:
-                    arms[pat[1]] = (pat[2][0][1], fmt_print(body), body)
-            ok = set(arms) == {"Ok", "Err"}
-            why = "arms %s" % sorted(arms)
-            if ok:
-                v, fp, _ = arms["Ok"]
-                ok1 = fp is not None and fp[0] == "{0}\n" and fp[1] == ["%s.disassemble()" % v]
-                v2, fp2, _ = arms["Err"]
-                ok2 = fp2 is not None and fp2[0] == "{0}\n" and fp2[1] == [v2]
-                ok = ok1 and ok2
-                why = "Ok arm prints %s, Err arm prints %s" % (fp, fp2)
-            # the buffer is what read_to_end filled from the file opened from the argument
-            txt = [show_stmt(s) for s in st[:-1]]
-            rd = [t for t in txt if ".read_to_end(&mut %s)" % buf in t]
-            op = [t for t in txt if "fs::File::open(" in t]
-            arg = [t for t in txt if '.value_of("input")' in t]
-            chk.check(R, len(rd) == 1 and len(op) == 1 and len(arg) == 1 and txt.index(arg[0]) < txt.index(op[0]) < txt.index(rd[0]), "reads-the-named-file",
-                      "file handling statements: %s" % [t[:70] for t in txt], W)
-            for t in txt:
-                m2 = re.match(r"^let mut (\w+) = Vec::new\(\);$", t) or re.match(r"^let mut (\w+) = vec!\[\];$", t)
-    chk.check(R, ok, "load-then-print", why, W, key="C20:main-match")
-    chk.check(R, len(prints) == 2, "exactly-two-prints", "%d print sites in main" % len(prints), W)
-    eprints = [n for n in prints if (path_of(n[1]) or "").endswith("_eprint")]
-    chk.check(R, not eprints, "stdout-only", "main prints to stderr", W)
+    from ..symeval import SymEval, Hooks, NONE, Panic as SPanic, flatten_fmt
+
+    class MH(Hooks):
+        def __init__(self, ok):
+            self.ok = ok
+            self.events = []
+
+        def path(self, p):
+            if p in ("CARGO_PKG_VERSION",):
+                return ("sym", p)
+            return NotImplemented
+
+        def call(self, p, args, e):
+            n = p.split("::")[-1]
+            if p.startswith("clap::") or p.startswith("::clap::"):
+                return ("clap", n)
+            if p.endswith("fs::File::open") and len(args) == 1:
+                self.events.append(("open", args[0]))
+                return ("ok", ("file",))
+            if p.endswith("fs::read") and len(args) == 1:
+                self.events.append(("open", args[0]))
+                self.events.append(("read_to_end", ("file-contents",)))
+                return ("ok", ("file-contents",))
+            if p in ("Vec::new", "::alloc::vec::Vec::new", "std::vec::Vec::new"):
+                return ("buffer",)
+            if p.endswith("dr::load_bytes") and len(args) == 1:
+                self.events.append(("load_bytes", args[0]))
+                return ("ok", ("module",)) if self.ok else ("err", ("load-error",))
+            if p.endswith("io::_print") and len(args) == 1:
+                self.events.append(("print", flatten_fmt(args[0])))
+                return ("unit",)
+            if p.endswith("io::_eprint"):
+                self.events.append(("eprint",))
+                return ("unit",)
+            if "process::exit" in p or "process::abort" in p:
+                self.events.append(("exit", args))
+                raise SPanic("exit")
+            return NotImplemented
+
+        def mcall(self, recv, m, args, e, ev):
+            if isinstance(recv, tuple) and recv[0] == "clap":
+                if m == "value_of":
+                    return ("some", ("argument", args[0]))
+                return ("clap", m)
+            if recv == ("file",) and m == "read_to_end" and len(args) == 1:
+                self.events.append(("read_to_end", args[0]))
+                return ("ok", ("sym", "N"))
+            if recv == ("module",) and m == "disassemble":
+                return ("sym", "DISASSEMBLY")
+            if recv == ("load-error",) and m == "to_string":
+                return ("load-error",)
+            return NotImplemented
+
+    for okcase in (True, False):
+        h = MH(okcase)
+        inst = "main(load %s)" % ("succeeds" if okcase else "fails")
+        try:
+            r = SymEval(h, "main").run(f, {})
+        except SPanic as x:
+            chk.bad(R, inst, "main exits/panics explicitly: %s (events %s)" % (x, h.events), W, key="C20:main:%s" % okcase)
+            continue
+        except Anchor as ex:
+            chk.bad(R, inst, "main is not analysable: %s" % ex, W, key="C20:main-shape")
+            continue
+        shown = ("sym", "DISASSEMBLY") if okcase else ("load-error",)
+        want_print = ("print", [(shown, ""), "\n"])
+        ev_ = h.events
+        opened = [e_ for e_ in ev_ if e_[0] == "open"]
+        reads = [e_ for e_ in ev_ if e_[0] == "read_to_end"]
+        loads = [e_ for e_ in ev_ if e_[0] == "load_bytes"]
+        prints = [e_ for e_ in ev_ if e_[0] in ("print", "eprint", "exit")]
+        good = (len(opened) == 1 and opened[0][1] == ("argument", ("str", "input")) and len(reads) == 1 and len(loads) == 1
+                and loads[0][1] == reads[0][1] and ev_.index(opened[0]) < ev_.index(reads[0]) < ev_.index(loads[0])
+                and prints == [want_print] and ev_[-1] == want_print)
+        chk.check(R, good, inst, "effects of main: %s; expected: open the `input` argument, read it to the end, load_bytes of exactly that buffer, then print %s followed by a newline and nothing else" % (
+            ev_, "the disassembly" if okcase else "the error"), W, key="C20:main:%s" % okcase, sample=str(ev_))
     req = [show(n) for n in walk(f["body"]) if n[0] == "mcall" and n[2] == "required"]
     chk.check(R, any('with_name("input")' in r_ and r_.endswith(".required(true)") for r_ in req), "main_required_arg", "argument declaration: %s" % req, W)
 
